@@ -2,23 +2,43 @@
 //! API surface the CLI uses — linearizable FIFO, iteration ends when every sender is gone,
 //! `send` fails once the receiver is dropped).
 use stylua_verif_seams::std::sync::mpsc;
-pub use std::sync::mpsc::{RecvError, SendError, TryRecvError};
+pub use std::sync::mpsc::{RecvError, RecvTimeoutError, SendError, TryRecvError, TrySendError};
 
-pub struct Sender<T>(mpsc::Sender<T>);
+enum Tx<T> {
+    Unbounded(mpsc::Sender<T>),
+    Bounded(mpsc::SyncSender<T>),
+}
+pub struct Sender<T>(Tx<T>);
 pub struct Receiver<T>(mpsc::Receiver<T>);
 impl<T> Clone for Sender<T> {
     fn clone(&self) -> Self {
-        Sender(self.0.clone())
+        match &self.0 {
+            Tx::Unbounded(s) => Sender(Tx::Unbounded(s.clone())),
+            Tx::Bounded(s) => Sender(Tx::Bounded(s.clone())),
+        }
     }
 }
 impl<T> Sender<T> {
     pub fn send(&self, t: T) -> Result<(), SendError<T>> {
-        self.0.send(t)
+        match &self.0 {
+            Tx::Unbounded(s) => s.send(t),
+            Tx::Bounded(s) => s.send(t),
+        }
+    }
+    pub fn try_send(&self, t: T) -> Result<(), TrySendError<T>> {
+        match &self.0 {
+            Tx::Unbounded(s) => s.send(t).map_err(|e| TrySendError::Disconnected(e.0)),
+            Tx::Bounded(s) => s.try_send(t),
+        }
     }
 }
 pub fn unbounded<T>() -> (Sender<T>, Receiver<T>) {
     let (a, b) = mpsc::channel();
-    (Sender(a), Receiver(b))
+    (Sender(Tx::Unbounded(a)), Receiver(b))
+}
+pub fn bounded<T>(cap: usize) -> (Sender<T>, Receiver<T>) {
+    let (a, b) = mpsc::sync_channel(cap);
+    (Sender(Tx::Bounded(a)), Receiver(b))
 }
 impl<T> Receiver<T> {
     pub fn recv(&self) -> Result<T, RecvError> {
@@ -26,6 +46,9 @@ impl<T> Receiver<T> {
     }
     pub fn try_recv(&self) -> Result<T, TryRecvError> {
         self.0.try_recv()
+    }
+    pub fn recv_timeout(&self, d: std::time::Duration) -> Result<T, RecvTimeoutError> {
+        self.0.recv_timeout(d)
     }
     pub fn iter(&self) -> mpsc::Iter<'_, T> {
         self.0.iter()
